@@ -781,7 +781,10 @@ impl Model<Rust> {
                     size.clone(),
                     EncodingOrdering::Keep,
                 );
-                ctxt.add_definition(Definition(name.into(), Rust::tuple_struct_from_type(inner)));
+                ctxt.add_definition(Definition(
+                    name.into(),
+                    Rust::tuple_struct_from_type(inner).with_tag_opt(tag),
+                ));
             }
 
             AsnType::SetOf(asn, size) => {
